@@ -52,11 +52,11 @@ PROPERTIES = {
         "explanation": "proved (relative to numpy.interp, uninterpreted): the one-dimensional path -- one call numpy.interp(new, xs, ys, left, right) on the operand's (label, value) pairs sorted ascending, result on exactly the new axis, metadata, operand untouched; bounded stand-in: the N-d path (positions, floor / ceil, fraction times difference: nonlinear real arithmetic), interp_like and Dataset.interp_axis, compared fibre by fibre with numpy.interp on the real code.",
     },
     "C14": {
-        "contracts": [dataset.DatasetTake, dataset.DatasetTakeAxis, dataset.DatasetScalarOp, dsops.DatasetOps],
+        "contracts": [dataset.DatasetTake, dataset.DatasetTakeAxis, dataset.DatasetScalarOp, dataset.DatasetReduce, dataset.DatasetJoin, dsops.DatasetOps],
         "level": "other",
-        "min_obligations": 1500,
+        "min_obligations": 3500,
         "min_bounded_evaluations": 2000,
-        "explanation": "proved: indexing (ix / isel / loc / sel / take, single index and lists), take_axis, sort_axis, arithmetic with a scalar in both operand orders and negation, on a Dataset a(x), b(x,y), c(y) -- full postconditions per variable, shared-axes invariant, metadata, operand untouched; bounded stand-in (differential against the DimArray operations): reductions, reindex_axis, interp_axis, Dataset + Dataset, stack_ds, concatenate_ds (they go through Dataset construction / alignment of every variable).",
+        "explanation": "proved: indexing (ix / isel / loc / sel / take, single index and lists), take_axis, sort_axis, arithmetic with a scalar in both operand orders and negation, on a Dataset a(x), b(x,y), c(y) -- full postconditions per variable, shared-axes invariant, metadata, operand untouched; reductions (one recorded call of the DimArray method per variable that has the axis; the real Dataset.__init__ / align bodies are executed), stack_ds and concatenate_ds of two Datasets with their own data; bounded stand-in (differential against the DimArray operations): reindex_axis, interp_axis, Dataset + Dataset (and every proved operation once more, natively).",
     },
     "C19": {
         "contracts": [serial.JsonRoundTrip],
